@@ -43,11 +43,12 @@ theorem compressBody_ok (H : Hooks) (constants : Dict) : BodyOK (compressBody H 
     by_cases haj : ins.isAuipcJump = true
     · rw [if_pos haj] at h; exact bodyOK_of_keep hnl hsz h
     · rw [if_neg haj] at h
-      simp only [bind, Except.bind] at h
       cases hm : firstMatch H (chainGet constants labels) line ins p criteria with
-      | error e => simp [hm] at h
+      | error e =>
+        rw [hm] at h
+        split at h <;> first | (simp at h; done) | (rename_i heq; cases heq; done) | (rename_i heq _; cases heq; done)
       | ok m =>
-        simp only [hm] at h
+        rw [hm] at h
         cases m with
         | none => exact bodyOK_of_keep hnl hsz h
         | some c =>
